@@ -54,8 +54,13 @@ def run(run):
         return n.get("n") if n.get("k") in ("Var", "Upvar") else None
 
     def r1():
+        from .lib import peval as PE
         fn = F.fn("specialize_by_comparison_op", file=VS)
         flow = NF.Flow(F, fn)
+        spec = PE.Spec(F)
+        op_ids = [b[0] for p_ in fn["params"] if p_.get("p") for b in T.pat_bindings(p_["p"]) if b[1] == "op"]
+        if not op_ids:
+            raise T.AnchorMissing("parameter `op` of specialize_by_comparison_op not found")
         blocks = []
         for n in T.walk(fn["body"]):
             if n.get("k") == "If" and T.peel(n["c"]).get("k") == "Let":
@@ -65,46 +70,40 @@ def run(run):
                 if evals and any(T.is_call(x, "try_to_bitvec") for x in T.walk(sc)):
                     side = param_name(evals[0]["a"][1])
                     b = T.pat_bindings(let["p"])
-                    ms = [m for m in T.walk(n["th"]) if m.get("k") == "Match" and param_name(m["e"]) == "op" or (m.get("k") == "Match" and T.show(m["e"]).strip("*& ") == "op")]
-                    if side in ("lhs", "rhs") and b and ms:
-                        blocks.append((side, b[0][0], ms[0]))
+                    if side in ("lhs", "rhs") and b:
+                        blocks.append((side, b[0][0], n["th"]))
         run.floor("constant-side blocks of specialize_by_comparison_op", len(blocks), 2)
-        for side, bound_id, m in blocks:
+        for side, bound_id, then_body in blocks:
             other = "rhs" if side == "lhs" else "lhs"
             for v, (sign, strict) in OPS.items():
-                arms = T.arms_for_variant(m, v)
                 key0 = "cmp|%s const|%s" % (side, v)
-                if not arms:
-                    run.violated("R1", key0 + "|arm", "no arm for %s when %s is constant" % (v, side), F.loc(m))
-                    continue
-                body = arms[0]["b"]
-                site = F.loc(body)
-                bounds = [x for x in T.walk(body) if T.is_call(x) and x["n"].startswith("add_") and x["n"].endswith("_bound")]
+                # the code that runs for this operator: branches decided by `op` (directly, through merged arms, or through a
+                # classifying helper) are resolved by specialisation
+                body_nodes = spec.reach(then_body, {op_ids[0]: ("enum", v)})
+                site = F.loc(then_body)
+                in_body = {id(x) for x in body_nodes}
+                bounds = [x for x in body_nodes if T.is_call(x) and x["n"].startswith("add_") and x["n"].endswith("_bound")]
                 if len(bounds) != 1:
-                    run.undecided("R1", key0 + "|bound-method", "%d bound calls" % len(bounds), site)
+                    run.undecided("R1", key0 + "|bound-method", "%d bound calls reachable for this operator" % len(bounds), site)
                     continue
                 bc = bounds[0]
                 # x op c (rhs constant) bounds x = lhs from above; c op x (lhs constant) bounds x = rhs from below
                 want = "add_%s_%s_equal_bound" % (sign, "less" if side == "rhs" else "greater")
                 run.check("R1", key0 + "|bound-method", bc["n"] == want, "`%s %s %s` with constant %s must refine %s with %s; found %s" % ("lhs", v, "rhs", side, other, want, bc["n"]), site)
-                # receiver: eval(other)
                 recv = flow.definition(bc["a"][0])
                 recv_evals = [param_name(x["a"][1]) for x in T.walk(recv) if T.is_call(x, "eval") and len(x["a"]) == 2]
                 for _ in range(3):
                     if recv_evals:
                         break
                     inner = [flow.definition(x) for x in T.walk(recv) if x.get("k") in ("Var", "Upvar") and x["id"] in flow.init]
-                    recv_evals = [param_name(x["a"][1]) for i in inner for x in T.walk(i) if T.is_call(x, "eval") and len(x["a"]) == 2]
+                    recv_evals = [param_name(x["a"][1]) for i_ in inner for x in T.walk(i_) if T.is_call(x, "eval") and len(x["a"]) == 2]
                 run.check("R1", key0 + "|bounded-value", recv_evals == [other], "the bound must be put on the value of `%s`; found eval of %s" % (other, recv_evals), site)
-                # bound argument is the constant of this side
                 arg_id = T.root_var_id(bc["a"][1]) if len(bc["a"]) > 1 else None
                 run.check("R1", key0 + "|bound-constant", arg_id == bound_id, "the bound must be the constant value of `%s`" % side, site)
-                # write back
-                wb = [x for x in T.walk(body) if T.is_call(x, "specialize_by_expression_result") and len(x["a"]) == 3]
+                wb = [x for x in body_nodes if T.is_call(x, "specialize_by_expression_result") and len(x["a"]) == 3]
                 tgt = [param_name(x["a"][1]) for x in wb]
                 run.check("R1", key0 + "|written-back-to", tgt == [other], "the refined value must be written back to `%s`; found %s" % (other, tgt), site)
-                # +-1
-                adj = [x for x in T.walk(body) if (x.get("k") == "AssignOp" and T.root_var_id(x["l"]) == bound_id) or (T.is_call(x, ("add_assign", "sub_assign")) and x.get("a") and T.root_var_id(x["a"][0]) == bound_id)]
+                adj = [x for x in body_nodes if (x.get("k") == "AssignOp" and T.root_var_id(x["l"]) == bound_id) or (T.is_call(x, ("add_assign", "sub_assign")) and x.get("a") and T.root_var_id(x["a"][0]) == bound_id)]
                 ones = [x for x in adj if any(T.is_call(y, "one") for y in T.walk(x["r"] if x.get("k") == "AssignOp" else x["a"][1]))]
                 want_op = None if not strict else ("AddAssign" if side == "lhs" else "SubAssign")
                 norm = lambda o: {"Add": "AddAssign", "Sub": "SubAssign", "add_assign": "AddAssign", "sub_assign": "SubAssign"}.get(o, o)
@@ -114,26 +113,45 @@ def run(run):
                     run.check("R1", key0 + "|moved-by-one", ok, "strict comparison: the constant must be moved by one (%s) before it becomes an inclusive bound; found %s" % ("c+1 <= x" if side == "lhs" else "x <= c-1", got_ops or "no adjustment"), site)
                 else:
                     run.check("R1", key0 + "|moved-by-one", not adj, "non-strict comparison: the constant itself is the inclusive bound; found an adjustment %s" % got_ops, site)
-                # guard against the extreme value
+                # guard against the extreme value: an early `return Err` reachable for this operator under a test of the constant
+                # against an extreme value (possibly bound to a local first)
                 guards = []
-                for x, conds in T.paths_to(body, lambda y: y.get("k") == "Return"):
+                EXT = ("signed_max_value", "unsigned_max_value", "signed_min_value", "zero")
+                for x, conds in T.paths_to(then_body, lambda y: y.get("k") == "Return"):
+                    if id(x) not in in_body:
+                        continue
                     for cd in conds:
-                        if cd[0] == "if" and cd[2]:
+                        if cd[0] == "if" and cd[2] and id(cd[1]) in in_body:
                             for y in T.walk(cd[1]):
-                                if T.is_call(y, ("signed_max_value", "unsigned_max_value", "signed_min_value", "zero")):
+                                if T.is_call(y, EXT):
                                     guards.append(y["n"])
+                                elif y.get("k") in ("Var", "Upvar") and y["id"] in flow.init and y["id"] != bound_id:
+                                    # e.g. `let max_value = if is_signed {..} else {..}; if bound == max_value`
+                                    for z in spec.reach(flow.init[y["id"]], {op_ids[0]: ("enum", v), **const_env(spec, then_body, op_ids[0], v)}):
+                                        if T.is_call(z, EXT):
+                                            guards.append(z["n"])
                 want_g = None if not strict else {("signed", "lhs"): "signed_max_value", ("unsigned", "lhs"): "unsigned_max_value", ("signed", "rhs"): "signed_min_value", ("unsigned", "rhs"): "zero"}[(sign, side)]
+                guards = sorted(set(guards))
                 if strict:
                     if guards == [want_g]:
                         run.holds("R1", key0 + "|extreme-guard", "", site)
                     elif not guards:
-                        run.violated("R1", key0 + "|extreme-guard", "strict comparison: moving the constant by one wraps around for the extreme value (%s); the arm must report 'unsatisfiable' for it" % want_g, site)
+                        run.violated("R1", key0 + "|extreme-guard", "strict comparison: moving the constant by one wraps around for the extreme value (%s); the code must report 'unsatisfiable' for it" % want_g, site)
                     elif len(guards) == 1:
                         run.violated("R1", key0 + "|extreme-guard", "the constant is tested against %s before it is moved %s; the value for which that wraps is %s" % (guards[0], "up" if side == "lhs" else "down", want_g), site)
                     else:
                         run.undecided("R1", key0 + "|extreme-guard", "guards %s" % guards, site)
                 else:
                     run.check("R1", key0 + "|extreme-guard", not guards, "non-strict comparison must not be rejected for an extreme constant; found guard %s" % guards, site)
+
+    def const_env(spec, body, op_id, v):
+        """constants bound by lets inside the body under op == v (e.g. (is_signed, is_strict) = classify(op))"""
+        env = {op_id: ("enum", v)}
+        for n in T.walk(body):
+            if n.get("k") == "LetStmt" and "i" in n:
+                spec.bind(n["p"], spec.cev(n["i"], env), env)
+        env.pop(op_id, None)
+        return env
 
     run.guarded("R1", r1)
 
